@@ -21,11 +21,39 @@ fn usage() -> ! {
 
 fn main() {
     let args: Vec<String> = std::env::args().collect();
-    if args.len() < 2 || (args.len() < 3 && args[1] != "__pin-charsets") {
+    if args.len() < 2 || (args.len() < 3 && args[1] != "__pin-charsets" && args[1] != "__c05-corpus") {
         usage();
     }
     if args[1] == "__c05-worker" {
         props::c05::worker_main();
+    }
+    if args[1] == "__c05-corpus" {
+        // vcheck __c05-corpus <dir> <n per family> <seed>
+        let dir = PathBuf::from(args.get(2).cloned().unwrap_or_else(|| "corpus".into()));
+        let n: u32 = args.get(3).and_then(|s| s.parse().ok()).unwrap_or(50);
+        let seed: u64 = args.get(4).and_then(|s| s.parse().ok()).unwrap_or(0);
+        match props::c05::write_corpus(&dir, n, seed) {
+            Ok(k) => {
+                println!("{k} corpus files written to {}", dir.display());
+                std::process::exit(0)
+            }
+            Err(e) => {
+                eprintln!("{e}");
+                std::process::exit(2)
+            }
+        }
+    }
+    if args[1] == "__c05-from-fuzz" {
+        // vcheck __c05-from-fuzz <crash file> <out json>: convert a libFuzzer artifact into a replay case
+        let data = std::fs::read(&args[2]).unwrap_or_default();
+        match props::c05::case_from_fuzz_input(&data) {
+            Some(c) => {
+                let j = serde_json::json!({"property": "C05", "sub": drivers::ENTRIES[c.entry as usize], "signature": "libFuzzer artifact", "detail": args[2], "seed": 0, "ir": c});
+                std::fs::write(&args[3], serde_json::to_string_pretty(&j).unwrap()).unwrap();
+                std::process::exit(0)
+            }
+            None => std::process::exit(2),
+        }
     }
     if args[1] == "__pin-charsets" {
         let root = std::env::var("VERIF_ROOT").map(PathBuf::from).unwrap_or_else(|_| PathBuf::from("/verif"));
